@@ -114,6 +114,7 @@ def run(ctx: Ctx):
                 'the loaded system versus an uninterrupted twin with per-iteration reseeding; multi-index strings also go through Model/Codec.v; '
                 'non-trivial = save point with at least two activations')
     lines, meta = [], []
+    tlines, tmeta = [], []
     try:
         for n in range(ctx.pick(6, 50)):
             kind = ['plain', 'norms', 'nosurr', 'costs', 'field', 'plain'][n % 6]
@@ -193,6 +194,19 @@ def run(ctx: Ctx):
                     if d2:
                         ctx.violate('C12:resumed-training-differs', f'one more step from the loaded iteration {it}: {d2} differ from the uninterrupted run', case)
                     ctx.count('resumes')
+                # the weight trees and index sets as they are written: MiscTree.serialize / IndexSet.serialize versus Model/Codec.v save_tree /
+                # save_index_set on the same items in the same insertion order (weights are integers)
+                for c in loaded.components:
+                    if not c.has_surrogate:
+                        continue
+                    for tree in (c.misc_coeff_train, c.misc_coeff_test):
+                        items = [[list(a), list(b), int(round(float(v)))] for a, b, v in tree]
+                        if not items or any(abs(float(v) - round(float(v))) > 0 for _, _, v in tree):
+                            continue
+                        ser = tree.serialize()
+                        want_nested = [[k, [[kb, int(round(float(v)))] for kb, v in inner.items()]] for k, inner in ser.items() if isinstance(inner, dict)]
+                        tlines.append('codec_tree ' + enc([items]))
+                        tmeta.append((case, want_nested, [str(t) for t in [(tuple(a), tuple(b)) for a, b, _ in tree]]))
                 # multi-index strings: model codec correspondence
                 for c in loaded.components:
                     for a, b in list(c.active_set)[:3]:
@@ -202,6 +216,16 @@ def run(ctx: Ctx):
         os.chdir(cwd0)
         shutil.rmtree(tmp, ignore_errors=True)
     run_resave_and_stale(ctx)
+    for (case, want_nested, want_pairs), mo in zip(tmeta, run_model(tlines, shards=4) if tlines else []):
+        ctx.count('weight_trees_compared')
+        if isinstance(mo, ModelError):
+            ctx.disagree('C12:model-error', case, str(mo), None); continue
+        got_nested = [[''.join(chr(c_) for c_ in k), [[''.join(chr(c_) for c_ in kb), v] for kb, v in inner]] for k, inner in mo[0]]
+        if got_nested != want_nested or mo[1] != 1:
+            ctx.disagree('C12:MiscTree.serialize', case, got_nested, want_nested)
+        got_pairs = [''.join(chr(c_) for c_ in t) for t in mo[2]]
+        if got_pairs != want_pairs or mo[3] != 1:
+            ctx.disagree('C12:str((alpha, beta))', case, got_pairs, want_pairs)
     if lines:
         for (case, want), mo in zip(meta, run_model(lines)):
             ctx.count('multi_index_strings')
